@@ -31,6 +31,8 @@ LTYPES = {
     # the first alternative binds its '?n' and then FAILS on the fixed axis (size 2 -> shape (2,4)),
     # or matches (size 3 -> shape (3,3)): what a failed alternative bound must not survive
     "Union[?n 3,?m 4]": ["union", [["arr", "?n 3"], ["arr", "?m 4"]]],
+    # a symbolic axis over the PLAIN axis n next to the per-leaf '?n' (plain n is 5 when bound)
+    "?n n+1": ["arr", "?n n+1"],
     "Optional[Q]": ["opt", Q],  # None is then a leaf of its own: it occupies a leaf position
     "Union[None,int,*?v]": ["union", [["none"], ["int"], ["arr", "*?v"]]],
     # deeper nestings: structure-less PyTrees between / around the structured ones
@@ -53,6 +55,9 @@ SKEL = {
     "{q:x,p:y}": (2, lambda l: ["dict", {"q": l[0], "p": l[1]}]),
     "{p:y,q:x}": (2, lambda l: ["dict", {"p": l[1], "q": l[0]}]),  # the same tree built in the other insertion order
     "(x,[y,z])": (3, lambda l: ["tuple", [l[0], ["list", l[1:]]]]),
+    # dicts keyed by user objects: all keys print alike / equal keys print differently in every tree
+    "{K0:x,K1:y}same-repr": (2, lambda l: ["objdict", l, "samerepr"]),
+    "{K0:x,K1:y}id-repr": (2, lambda l: ["objdict", l, "idrepr"]),
 }
 
 
@@ -62,6 +67,8 @@ def leaf_for(lname, sizes):
     A = lambda s: ["duck", [s]]
     if sizes[0] == 0:
         return ["none"]  # only generated for leaf types that admit None
+    if lname == "?n n+1":
+        return ["duck", [sizes[0], 6]]
     if lname == "Union[?n 3,?m 4]":
         return ["duck", [2, 4]] if sizes[0] == 2 else ["duck", [3, 3]]
     if lname == "Union[None,int,*?v]":
@@ -294,7 +301,7 @@ def run(ctx):
         dontcare=stats["dontcare"],
         distinct_nontrivial=stats["nontrivial"],
         exhaustive=True,
-        bounds="sequences of 2 (quick) / 2-3 (thorough) trees over 5 skeletons (1-3 leaf positions; the two-key dict in both insertion orders), every assignment of sizes {2,3} to every array position, plain axis n=5 bound at every point of the sequence",
+        bounds="sequences of 2 (quick) / 2-3 (thorough) trees over 7 skeletons (1-3 leaf positions; the two-key dict in both insertion orders; dicts keyed by user objects that print alike / by default repr), every assignment of sizes {2,3} to every array position, plain axis n=5 bound at every point of the sequence",
     )
     return Result(level="model_checking", coverage=cov, violations=viols, assumptions=["reference keys '?' axes by (structure name, leaf index, axis name)", "for leaf types that are themselves PyTrees only 'never AnnotationError under exactly one structured PyTree' and 'AnnotationError under two / none' are asserted"])
 
